@@ -27,7 +27,10 @@ pub struct FuzzCfg {
     pub dir: String,
 }
 
-const TAIL: usize = 1 << 15;
+// 1 MiB: a library of 5 notes x 3 versions draws several thousand 8-byte samples; with the former
+// 32 KiB tail such a case ran the stream dry, rand then sampled zeros forever and the job ended in
+// a libFuzzer timeout before any case was journaled (seen in the C20 campaign, session 3)
+const TAIL: usize = 1 << 20;
 static CFG: OnceLock<FuzzCfg> = OnceLock::new();
 static EXECS: AtomicU64 = AtomicU64::new(0);
 static NONTRIVIAL: AtomicU64 = AtomicU64::new(0);
